@@ -2,7 +2,7 @@
     Statements only; proofs in Txcache/Pool_proofs.v and Txcache/Pool_props.v. *)
 From Coq Require Import List NArith ZArith Lia Permutation.
 From Verif Require Import Base.BStr Txcache.TxTypes Txcache.SenderList Txcache.Selection Txcache.Pool
-  Txcache.SenderList_proofs Txcache.Pool_proofs Txcache.Pool_props Txcache.Judge Txcache.Judge_proofs.
+  Txcache.SenderList_proofs Txcache.Pool_proofs Txcache.Pool_props Txcache.Judge Txcache.Judge_proofs Base.Generic Txcache.PoolComp Txcache.PoolComp_proofs.
 Import ListNotations.
 Open Scope Z_scope.
 
@@ -64,6 +64,22 @@ Theorem C05_checker_accepts_model : forall cfg ops alpha known,
   c05_viewsb known (views_of alpha (run_pool cfg ops)) = true.
 Proof. exact run_pool_views_accepted. Qed.
 
+(** The executable driver (PoolComp.pool_step: the function the extracted runner folds over the wire history) computes exactly
+    [run_pool] of the operations the wire steps stand for -- the theorems above are therefore about what the runner runs ... *)
+Theorem C05_driver_is_model : forall cfgargs s0 steps, pool_init cfgargs = Some s0 ->
+  ps_pool (comp_run s0 steps) = run_pool (ps_cfg s0) (decode_ops steps) /\
+  ps_cfg (comp_run s0 steps) = ps_cfg s0 /\ ps_alpha (comp_run s0 steps) = ps_alpha s0.
+Proof. exact driver_is_run_pool. Qed.
+
+(** ... and what it prints under label 32 (C05 judged on the model's own views; the harness answers [true] for it, so that any other
+    value shows as a mismatch) is [true] at every point of every history whose added transactions are determined by their hashes,
+    have uint64 nonces and senders in the (duplicate-free) alphabet of the configuration *)
+Theorem C05_driver_prints_true_under_32 : forall cfgargs s0 steps args v, pool_init cfgargs = Some s0 ->
+  hist_ok (decode_ops steps) -> NoDup (ps_alpha s0) ->
+  (forall t, In t (added_txs (decode_ops steps)) -> In (sender t) (ps_alpha s0)) ->
+  In (32%N, v) (snd (pool_step (comp_run s0 steps) 6%N args)) -> v = g_bool true.
+Proof. exact driver_prints_true_under_32. Qed.
+
 (** non-vacuity: a history with same-nonce alternatives, eviction by count in two batches, a transaction larger
     than the per-sender byte limit, a removal and a Clear reaches non-trivial states *)
 Open Scope N_scope.
@@ -93,3 +109,5 @@ Print Assumptions C05_empty_is_zero.
 Print Assumptions C05_no_orphan.
 Print Assumptions C05_checker_sound.
 Print Assumptions C05_checker_accepts_model.
+Print Assumptions C05_driver_is_model.
+Print Assumptions C05_driver_prints_true_under_32.
